@@ -78,6 +78,7 @@ class Run(object):
         self.explanation = ''
         self.monitored = {}
         self.selftest = None
+        self.lemmas_checked = set()
         self.monitor_failures = {}
         self.replay_dir = os.path.join(ROOT, 'replay')
         os.makedirs(self.replay_dir, exist_ok=True)
@@ -138,6 +139,12 @@ class Run(object):
             self.solver_time += rec['time']
             self.obligations[oid] = rec
         self.monitor([k for k in keys if not k.startswith('lemma')])
+        if lemmas:
+            from . import lemmacheck
+            todo = [n_ for n_ in lemmas if n_ not in self.lemmas_checked]
+            self.lemmas_checked.update(todo)
+            if todo:
+                self.bounded_check('lemma_statements', lambda r_: lemmacheck.run(r_, todo, 40 if self.tier == 'quick' else 200))
         if len(self.samples) < 6:
             for vc in all_vcs[:3]:
                 self.samples.append({'obligation': vc.oid, 'goal': str(vc.goal)[:300], 'n_hyps': len(vc.hyps)})
